@@ -28,7 +28,8 @@ type yieldArm struct {
 	node  *Node // nil: any goroutine except the harness (component scenarios)
 	role  string
 	count int
-	match string // substring of the point label ("" = any)
+	match   string // substring of the point label ("" = any)
+	exclude string // substring the label must not contain ("" = none)
 }
 
 type yieldState struct {
@@ -153,10 +154,16 @@ func (w *World) atYield(point string) {
 	if a.match != "" && !strings.Contains(point, a.match) {
 		return
 	}
-	if strings.HasSuffix(point, ":select") {
+	if a.exclude != "" && strings.Contains(point, a.exclude) {
+		return
+	}
+	isSelect := strings.HasSuffix(point, ":select")
+	if isSelect && a.role != "main" && a.role != "api" {
 		// Go picks at random among the ready cases of a select: parking a goroutine in front of one and letting the
-		// world move on manufactures selects with several ready cases whose outcome no tape decision controls
-		// (the worker's own select is under hook H1 instead)
+		// world move on manufactures selects with several ready cases whose outcome no tape decision controls (the
+		// worker's own select is under hook H1 instead). Exception: the main loop and API callers - while a main loop
+		// is parked the harness hands the node nothing but UpdateState calls (one channel) and never cancels, so every
+		// select it reaches at release has at most one ready case.
 		return
 	}
 	id := goid()
